@@ -55,4 +55,9 @@ theorem all_hole_writes_nothing (k : Kern) (len b : Nat) (a : Nat) :
   rw [copySparse_allHole]
   exact ⟨rfl, rfl⟩
 
+/-- parblock, an entirely empty (all-hole) file — FIEMAP reports no extent: no block is queued, whatever the
+length and block size, so nothing is ever written to the destination. -/
+theorem parblock_all_hole_queues_nothing (len b : Nat) : parblockJobs len b true (some []) = [] := by
+  simp [parblockJobs, parblockRanges, mergeExtents, mergeGo]
+
 end Xcp.C11
